@@ -365,8 +365,39 @@ func c08Fork(c *Ctx, g *gameModel) {
 	ztT := c.P.NamedType("pkg/board", "ZobristTable")
 	ctor := c.find("pkg/board", "", "NewZobristTable")
 	var writers []string
+	// helpers the constructor is split into: functions of its family that nothing but the constructor (or another
+	// such helper) calls - they write the table while it is still under construction
+	ctorOnly := map[*ssa.Function]bool{}
+	if ctor != nil {
+		fam := funcFamily(ctor)
+		inFam := map[*ssa.Function]bool{}
+		for _, f := range fam {
+			inFam[f] = true
+		}
+		for _, f := range fam {
+			if f == ctor {
+				continue
+			}
+			only := true
+			for _, g := range c.P.AllFuncs {
+				if g.Blocks == nil || inFam[g] {
+					continue
+				}
+				for _, gb := range g.Blocks {
+					for _, gi := range gb.Instrs {
+						if call, ok := gi.(ssa.CallInstruction); ok && call.Common().StaticCallee() == f {
+							only = false
+						}
+					}
+				}
+			}
+			if only {
+				ctorOnly[f] = true
+			}
+		}
+	}
 	for _, fs := range allFieldStores(c.P) {
-		if fs.Named != nil && ztT != nil && fs.Named.Obj() == ztT.Obj() && fs.Fn != ctor {
+		if fs.Named != nil && ztT != nil && fs.Named.Obj() == ztT.Obj() && fs.Fn != ctor && !ctorOnly[fs.Fn] {
 			writers = append(writers, c.P.FuncName(fs.Fn)+" at "+c.pos(fs.Pos))
 		}
 	}
